@@ -177,7 +177,7 @@ func c01(c *Ctx) {
 	lit := 0
 	bases := []int{0, 1, 2, 3, 4} // every base_path class in both tiers (quick thins values, not bases)
 	for n, bi := range bases {
-		for _, sub := range []string{"main", "pathquery", "bodyquery", "shared"} {
+		for _, sub := range []string{"main", "pathquery", "bodyquery", "bodymap", "shared"} {
 			pkg := fmt.Sprintf("c01.r%d%s", n, sub)
 			f, cases := corpus.RoutingFile(bi, sub, pkg, "lab/gen/"+strings.ReplaceAll(pkg, ".", ""), strings.ReplaceAll(pkg, ".", ""), &lit, c.Thorough())
 			addPkg(f, func(reg *protoregistry.Files, pt string) []*rpcTarget {
